@@ -256,7 +256,7 @@ def _run(ctx):
         ctx.state("shape_x_class", (sh, "short"))
 
     # 3. random hostile values into shapes, and fully random programs
-    for _ in range(ctx.budget(4000, 300000)):
+    for _ in range(ctx.budget(4000, 3000000)):
         if rng.random() < 0.5:
             sh = rng.choice(shapes)
             cls = rng.choice(["word", "meta", "markup", "ws", "nl", "exotic", "mixed", "empty", "long"])
